@@ -115,6 +115,11 @@ fn stream_items() -> Vec<(&'static str, Item)> {
         ("dim+1", item(16, &[1.0, 0.0, 0.0, 0.0], "", 0)),
         ("id0", item(0, &[1.0, 0.0, 0.0], "", 0)),
         ("id-2^32", item(1u64 << 32, &[1.0, 0.0, 0.0], "", 0)),
+        // refused rows that carry the id of a VALID row of the same stream: a refused item must
+        // not cancel (or replace) an accepted one
+        ("nan-on-a", item(11, &[f32::NAN, 0.0, 1.0], "", 0)),
+        ("dim+1-on-b", item(12, &[1.0, 0.0, 0.0, 0.0], "", 0)),
+        ("zero-on-a", item(11, &[0.0, 0.0, 0.0], "", 0)),
     ]
 }
 
@@ -262,6 +267,7 @@ fn check_stream(rt: &tokio::runtime::Runtime, srv: &Srv, load: bool, names: &[&s
     let allowed: Vec<usize> = (0..items.len()).filter(|i| may_apply(&items[*i])).collect();
     let n_ok = resp.get("inserted").or(resp.get("loaded")).and_then(|x| x.as_u64());
     let mut explained = false;
+    let mut count_mismatch: Option<(u64, usize)> = None;
     for mask in 0..(1u32 << allowed.len()) {
         let mut m: BTreeMap<u64, Vec<u32>> = before.iter().map(|(k, v)| (*k, v.0.clone())).collect();
         let mut cnt = 0;
@@ -277,12 +283,23 @@ fn check_stream(rt: &tokio::runtime::Runtime, srv: &Srv, load: bool, names: &[&s
             a == v || vcore::model::stored_matches_input(vcore::metric_from(metric), a, &v.iter().map(|b| f32::from_bits(*b)).collect::<Vec<_>>())
         });
         if same_vecs {
-            // counts must be consistent when the response reports them (duplicates in one stream
-            // may be counted individually)
-            let _ = (cnt, n_ok);
+            // the number of rows the response acknowledges must be the number of rows of this
+            // explanation (rows are counted individually, duplicates included): an acknowledged
+            // row that is not in the collection is a lost write, whatever the totals say
+            if let Some(n) = n_ok {
+                if n != cnt as u64 {
+                    count_mismatch = Some((n, cnt));
+                    continue;
+                }
+            }
             explained = true;
             break;
         }
+    }
+    if !explained && count_mismatch.is_some() {
+        let (n, cnt) = count_mismatch.unwrap();
+        st.viol.push((format!("C15|{}|acknowledged-rows-not-in-collection", rpc_name(&rpc)), ctx(format!("the response acknowledges {n} rows but the collection is only explained by applying {cnt} of the valid rows: response {resp}; before {:?} after {:?}", before.keys().collect::<Vec<_>>(), after.iter().map(|(k, v)| (k, v.0.iter().map(|b| f32::from_bits(*b)).collect::<Vec<_>>())).collect::<Vec<_>>()))));
+        return false;
     }
     if !explained {
         st.viol.push((format!("C15|{}|collection-not-explained-by-the-valid-items", rpc_name(&rpc)), ctx(format!("response {resp}; before {:?} after {:?}", before.keys().collect::<Vec<_>>(), after.keys().collect::<Vec<_>>()))));
@@ -600,6 +617,17 @@ pub fn worker(wi: usize, wn: usize, tier: &str) {
         for k in [1000u32, 999, 501] {
             reps.push((format!("Search k={k} with filter"), Rpc::Search { t: 0, q: vec![0.6, 0.8, 0.0], k, ns: "".into(), flt: Flt::Exact("a".into(), "1".into()), legacy: vec![], emb: false, ef: 0 }));
             reps.push((format!("Search k={k} ef=10000"), Rpc::Search { t: 0, q: vec![0.6, 0.8, 0.0], k, ns: "".into(), flt: Flt::None, legacy: vec![], emb: false, ef: 10_000 }));
+            // filter shapes the server oversamples most (the cold tier is asked for k x factor)
+            let shapes: Vec<(&str, Flt)> = vec![
+                ("in-8-values", Flt::In("a".into(), (0..8).map(|i| i.to_string()).collect())),
+                ("not", Flt::Not(Box::new(Flt::Exact("a".into(), "zzz".into())))),
+                ("or-4", Flt::Or((0..4).map(|i| Flt::Exact("a".into(), i.to_string())).collect())),
+                ("range", Flt::RangeGte("a".into(), "0".into())),
+                ("and[not,in]", Flt::And(vec![Flt::Not(Box::new(Flt::Exact("a".into(), "zzz".into()))), Flt::In("a".into(), (0..8).map(|i| i.to_string()).collect())])),
+            ];
+            for (sname, flt) in shapes {
+                reps.push((format!("Search k={k} with filter {sname}"), Rpc::Search { t: 0, q: vec![0.6, 0.8, 0.0], k, ns: "".into(), flt, legacy: vec![], emb: false, ef: 0 }));
+            }
         }
         for (ri, (label, rpc)) in reps.iter().enumerate() {
             if (ri + idx) % wn != wi {
